@@ -27,6 +27,7 @@ RADIALS = [
     ("linspace(0.2, 0.4, 5)", ["0.2", "0.25", "0.3", "0.35", "0.4"]),
     ("range(1, 4)", ["1", "2", "3"]),
     ("(0.5, 0.25)", ["0.25", "0.5"]),
+    ("range(1.4, 4.4)", ["1.4", "2.4", "3.4"]),
 ]
 RADIALS_T = RADIALS + [
     ("linspace(0.2,1.5,3)", ["0.2", "0.85", "1.5"]),
